@@ -318,6 +318,25 @@ class RouterRun:
                 flags[(hi, n)] = bool(obj.open)
         return flags
 
+    def _ready_inputs(self, hi, opened):
+        """Endpoints of hub hi that are open, have an active rule or sink as *input*, and hold a message that a
+        receive attempt made now would return."""
+        hub = self.hubs[hi]
+        md = hub.model
+        out = []
+        for n in md.known:
+            if not opened[(hi, n)] or not (md.fwd.get(n) or md.sinks.get(n)):
+                continue
+            obj = hub.comms.endpoints[n]
+            if hub.kinds[n]["kind"] == "mem":
+                if obj.inbox:
+                    out.append(n)
+            else:
+                h = obj.comm_handle
+                if h is not None and not h.closed and h.inbox and h.timeout and h.inbox[0][0] <= self.clock.now + h.timeout:
+                    out.append(n)
+        return out
+
     def abstract_state(self):
         parts = []
         for hi, hub in enumerate(self.hubs):
@@ -347,6 +366,7 @@ class RouterRun:
         self.ctx = ctx = _Ctx()
         self.log.add("step", self.steps_done, op)
         opened = self._open_flags()
+        self._ready = self._ready_inputs(hi, opened) if op == "spin" else ()
         before = self.abstract_state() if self.collect else None
         ret = None
         exc = None
@@ -532,6 +552,16 @@ class RouterRun:
                     raise Violation("R-spin-source", "spin(%d): source values sent %r, expected %r%s" % (
                         k, sorted(map(repr, obs_by.items())), sorted(map(repr, pred_src.items())),
                         ("; raised %s: %s" % (type(exc).__name__, exc)) if exc else ""), sig)
+            # a message that has arrived on an open endpoint with an active rule or sink is *received* by the next
+            # spin: every such endpoint must see at least one receive attempt during spin(k>=1)
+            if exc is None and k >= 1 and self._ready:
+                polled = set(r[1] for r in ctx.recvs if r[0] == hi)
+                starved = [n for n in self._ready if n not in polled]
+                if starved:
+                    raise Violation("R-spin-poll", "spin(%d) never polled endpoint %s although it is open, has %s and a "
+                                    "message waiting: the message is not delivered to its registered destinations" % (
+                                        k, starved[0], "a sink" if md.sinks.get(starved[0]) else "a forwarding rule"), sig)
+                self.probes["spin_polled_ready_endpoint"] += 1
             if pred_calls:
                 self.n_nontrivial += 1
                 self.probes["spin_with_sources"] += 1
@@ -1023,7 +1053,7 @@ EXPECTED_PROBES = [
     "delete_then_readd", "delete_absent_rule", "forward_to_closed_udp", "get_closed_port_with_rules",
     "get_unknown_port", "self_forward_delivery", "two_endpoint_cycle", "held_then_received_by_later_poll",
     "duplicate_datagram_two_fanouts", "multiple_receives_in_one_call", "chained_hub_to_sink",
-    "spin_sources_and_rules_same_endpoint", "fanout_ge2_destinations", "fanout_ge2_sinks",
+    "spin_sources_and_rules_same_endpoint", "spin_polled_ready_endpoint", "fanout_ge2_destinations", "fanout_ge2_sinks",
     "none_handle_rejected", "duplicate_sink_rejected", "duplicate_source_rejected",
 ]
 
